@@ -4,6 +4,7 @@
 -/
 import Xandikos.Store.UidProofs
 import Xandikos.Tie.ExcTablesEq
+import Xandikos.Tie.StoreGateEq
 
 namespace Xandikos.Theorems.C06
 open Xandikos Xandikos.Store
@@ -239,5 +240,44 @@ theorem code_is_model_exception_tables (o : Out) (e : String) (h : Tie.excOf o =
     Tie.answerTo Generated.exception_bases Generated.create_member_raises Generated.put_create_answers e = Http.ofStoreOut true o ∧
     Tie.answerTo Generated.exception_bases Generated.create_member_raises Generated.post_answers e = Http.ofStoreOut true o :=
   ⟨Tie.put_update_table o e h, Tie.put_create_table o e h, Tie.post_table o e h⟩
+
+/-- **the code is the model (the store's gate)**: `_check_duplicate` of the git stores and of the
+    vdir store and `_forget_uid` of both, as translated from /repo on this run, are the model's
+    `dupError` / `etagError` (in that order) and `forget` -/
+theorem code_is_model_check_duplicate (c : Cache) (cur uid : Option String) (name : String) (replace : Option String) :
+    Generated.git_check_duplicate true c.u2f cur uid name replace = Tie.gateOf c cur uid name replace ∧
+    Generated.vdir_check_duplicate true c.u2f cur uid name replace = Tie.gateOf c cur uid name replace :=
+  ⟨Tie.git_check_duplicate_eq c cur uid name replace, Tie.vdir_check_duplicate_eq c cur uid name replace⟩
+
+theorem code_is_model_forget_uid (m : Map (String × String)) (n : String) (u : Option String) :
+    Generated.git_forget_uid m n u = forget m n u ∧ Generated.vdir_forget_uid m n u = forget m n u :=
+  ⟨Tie.git_forget_uid_eq m n u, Tie.vdir_forget_uid_eq m n u⟩
+
+/-- **on the translated code: a write is refused for a UID conflict only if the (refreshed) map
+    names another resource as the holder of that UID** -/
+theorem code_refuses_only_for_another_holder (c : Cache) (cur uid : Option String) (name : String)
+    (replace : Option String) (ex arg : String)
+    (h : Generated.git_check_duplicate true c.u2f cur uid name replace = .error (.raised "DuplicateUidError" arg)) :
+    ∃ u e, uid = some u ∧ c.u2f[u]? = some (arg, e) ∧ arg ≠ name := by
+  rw [Tie.git_check_duplicate_eq] at h
+  unfold Tie.gateOf dupError at h
+  cases uid with
+  | none =>
+    simp only at h
+    cases hr : etagError cur replace <;> simp [hr] at h
+  | some u =>
+    cases hl : c.u2f[u]? with
+    | none =>
+      simp only [hl] at h
+      cases hr : etagError cur replace <;> simp [hr] at h
+    | some v =>
+      obtain ⟨ex', e⟩ := v
+      simp only [hl] at h
+      by_cases hn : ex' = name
+      · simp only [hn, ↓reduceIte] at h
+        cases hr : etagError cur replace <;> simp [hr] at h
+      · simp only [hn, ↓reduceIte, Except.error.injEq, Py.PyErr.raised.injEq, true_and] at h
+        subst h
+        exact ⟨u, e, rfl, hl, hn⟩
 
 end Xandikos.Theorems.C06
